@@ -127,7 +127,7 @@ func runGuarded(f func() string) callResult {
 	select {
 	case r := <-ch:
 		return r
-	case <-time.After(20 * time.Second):
+	case <-time.After(90 * time.Second): // generous: on a loaded machine a slow call is not a hang
 		return callResult{hung: true}
 	}
 }
